@@ -63,6 +63,10 @@ func (w *Worker) access(obj interface{}, write bool) {
 		rs.cells[obj] = rec
 	}
 	where := strings.Join(w.i.stackStrings(3), " <- ")
+	if strings.Contains(firstFrame(where), "verif") || strings.Contains(firstFrame(where), "Verif") || strings.Contains(firstFrame(where), "zz_verif") {
+		// accesses made by harness code itself (bookkeeping variables) are not under test
+		return
+	}
 	report := func(kind string, otherTid int, otherWhere string) {
 		msg := fmt.Sprintf("data race (%s) on %s: [%s] vs [%s]", kind, describeObj(obj), firstFrame(where), firstFrame(otherWhere))
 		if rs.seen[msg] {
